@@ -1500,9 +1500,12 @@ def gen_devices(rng, tier, with_cmds, with_states):
     return L
 
 
-def out_datum(rng, kind, t):
-    """what a getter followed by a terminal slot returns: Output<Datum<State>> / Output<Datum<Command>>; the outer timestamp is noise"""
+def out_datum(rng, kind, t, noerr=False):
+    """what a getter followed by a terminal slot returns: Output<Datum<State>> / Output<Datum<Command>>; the outer timestamp is noise.
+    (a line is compared only up to its first erroring update — see check.py `_cut_at_follower_error` — so half of the lines never err)"""
     r = rng.random()
+    if noerr and r >= 0.78:
+        r = rng.random() * 0.78
     if r < 0.60:
         return "S@%d@%s" % (rng.choice([rng.randint(-9, 9), t, t + 1, I64_MIN, I64_MAX]), datum_state(rng, t) if kind == "s" else datum_cmd(rng, t))
     if r < 0.78:
@@ -1524,6 +1527,7 @@ def gen_followers(rng, tier, with_cmds, with_states, n_quick=120, n_thorough=900
         if nt == 0:
             continue
         ops = []
+        noerr = rng.random() < 0.5
         t = rng.randint(-10 ** 9, 10 ** 9)
         conn = [rng.random() < 0.4 for _ in range(nt)]
         for i in range(nt):
@@ -1535,13 +1539,13 @@ def gen_followers(rng, tier, with_cmds, with_states, n_quick=120, n_thorough=900
                 if rng.random() < 0.7:
                     ops.append("%s:%d" % (fol, i))
                 if rng.random() < 0.8:
-                    ops.append("%s:%d:%s" % (gs, i, out_datum(rng, k, t + rng.randint(0, 1000))))
+                    ops.append("%s:%d:%s" % (gs, i, out_datum(rng, k, t + rng.randint(0, 1000), noerr)))
         for _ in range(rng.randint(3, n_of(tier, 14, 30))):
             t += rng.randint(0, 10 ** 6)
             i = rng.randrange(2 * nt) if rng.random() < 0.25 else rng.randrange(nt)
             (k, fol, unfol, gs) = rng.choice(kinds)
             r = rng.random()
-            if r < 0.30: ops.append("%s:%d:%s" % (gs, i, out_datum(rng, k, t)))
+            if r < 0.30: ops.append("%s:%d:%s" % (gs, i, out_datum(rng, k, t, noerr)))
             elif r < 0.40: ops.append("%s:%d" % (fol, i))
             elif r < 0.45: ops.append("%s:%d" % (unfol, i))
             elif r < 0.53: ops.append(("ss:%d:%s" % (i, datum_state(rng, t))) if k == "s" else ("sc:%d:%s" % (i, datum_cmd(rng, t))))
@@ -1746,19 +1750,20 @@ def gen_C20(rng, tier):
     for _ in range(n_of(tier, 150, 1200)):
         for kind in ("act", "enc"):
             evs = []
+            noerr = rng.random() < 0.5
             t = rng.randint(0, 10 ** 6)
             for _ in range(rng.randint(3, 24)):
                 r = rng.random()
                 t += rng.randint(1, 10 ** 6)
-                if r < 0.16: evs.append("tgs:" + out_datum(rng, "s", t))
-                elif r < 0.32: evs.append("tgc:" + out_datum(rng, "c", t))
+                if r < 0.16: evs.append("tgs:" + out_datum(rng, "s", t, noerr))
+                elif r < 0.32: evs.append("tgc:" + out_datum(rng, "c", t, noerr))
                 elif r < 0.42: evs.append(rng.choice(["tfs", "tfc"]))
                 elif r < 0.46: evs.append(rng.choice(["tnfs", "tnfc"]))
                 elif r < 0.54: evs.append("xs:" + datum_state(rng, t))
                 elif r < 0.60: evs.append("xc:" + datum_cmd(rng, t))
-                elif r < 0.66: evs.append("iu:" + rng.choice(["ok", "ok", "E5", "EN"]))
-                elif r < 0.72 and kind == "act": evs.append("acc:" + rng.choice(["ok", "ok", "E4"]))
-                elif r < 0.72: evs.append("gs:" + rng.choice([out_some(t, mkstate(rng)), "N", "E1"]))
+                elif r < 0.66: evs.append("iu:" + rng.choice(["ok", "ok", "ok"] if noerr else ["ok", "ok", "E5", "EN"]))
+                elif r < 0.72 and kind == "act": evs.append("acc:" + rng.choice(["ok"] if noerr else ["ok", "ok", "E4"]))
+                elif r < 0.72: evs.append("gs:" + rng.choice([out_some(t, mkstate(rng)), "N"] + ([] if noerr else ["E1"])))
                 else: evs.append("upd")
             L.append("wr %s tfs tfc %s upd" % (kind, " ".join(evs)))
     return L
